@@ -710,6 +710,7 @@ def run(chk):
         if found < 2:
             raise AnalysisError(f"{cname}.op_mat: two-operator placement branches not found")
 
+    holstein_rule(chk, src)
     # ------------------------------------------------------------ copy forward
     base = src.cls(BASIS, "BasisSet")
     for ci in [base] + sorted(src.subclasses(base), key=lambda c: c.node.lineno):
@@ -745,6 +746,130 @@ def run(chk):
             chk.ob("copy-forward", f"{ci.name}.copy:{p}", ok, cp.where, got, f"self.{attr}", line=call.lineno,
                    detail=f"{ci.name}.copy(new_dof) does not forward constructor parameter {p!r} (stored as self.{attr}): the copy silently "
                           f"falls back to the default / receives another parameter's value; TI1DModel and add_auxiliary_space replicate bases with copy()")
+
+
+def op_term(e, env):
+    """Op(...) [* Op(...)] [* scalar] expression -> (symbol string, sympy coefficient)"""
+    from . import C09
+    if isinstance(e, ast.Call) and unparse(e.func) == "Op":
+        sym = e.args[0].value if isinstance(e.args[0], ast.Constant) else None
+        if sym is None:
+            raise AnalysisError(f"non-literal operator symbol in {unparse(e)[:60]}")
+        coef = sp.Integer(1)
+        fac = e.args[2] if len(e.args) > 2 else None
+        for k in e.keywords:
+            if k.arg == "factor":
+                fac = k.value
+        if fac is not None:
+            coef = scal(fac, env)
+        return sym, coef
+    if isinstance(e, ast.BinOp) and isinstance(e.op, ast.Mult):
+        try:
+            ls, lc = op_term(e.left, env)
+        except AnalysisError:
+            ls, lc = None, scal(e.left, env)
+        try:
+            rs, rc = op_term(e.right, env)
+        except AnalysisError:
+            rs, rc = None, scal(e.right, env)
+        sym = " ".join(x for x in (ls, rs) if x)
+        return (sym or None), lc * rc
+    raise AnalysisError(f"term expression outside the fragment: {unparse(e)[:60]}")
+
+
+def scal(e, env):
+    t = unparse(e).replace(" ", "")
+    for k, v in env.items():
+        t = t.replace(k, v)
+    from . import C09
+    return C09.scalar_sym(ast.parse(t, mode="eval").body, {"W0": sp.Symbol("w0", positive=True), "W1": sp.Symbol("w1", positive=True),
+                                                          "D1": sp.Symbol("d1", real=True), "D0": sp.Symbol("d0", real=True)})
+
+
+def holstein_rule(chk, src):
+    """the displaced-oscillator potential of the excited state must be a perfect square consistent with the reorganisation energy"""
+    chk.rule("holstein-square", "HolsteinModel: excited-state potential = 1/2 w_e^2 (x - d)^2 across the vibration terms, the electron-phonon terms "
+             "and Phonon.reorganization_energy; the equal-frequency branch is the general branch at w_e = w_g; Phonon.term10 is the same linear coupling", 5)
+    MODEL = "renormalizer/model/model.py"
+    PH = "renormalizer/model/phonon.py"
+    fi = src.func(MODEL, "HolsteinModel.__init__")
+    env = {"ph.omega[0]": "W0", "ph.omega[1]": "W1", "ph.dis[1]": "D1", "ph.dis[0]": "D0"}
+    w0, w1, d1 = sp.Symbol("w0", positive=True), sp.Symbol("w1", positive=True), sp.Symbol("d1", real=True)
+    loops = [n for n in fi.node.body if isinstance(n, ast.For) and any(isinstance(x, ast.For) and "ph_list" in unparse(x.iter) for x in n.body)]
+    if len(loops) < 2:
+        raise AnalysisError(f"{fi.where}: vibration loops not found")
+
+    def collect(stmts, equal):
+        out = {}
+        for s in stmts:
+            if isinstance(s, ast.For):
+                for k, v in collect(s.body, equal).items():
+                    out[k] = out.get(k, 0) + v
+            elif isinstance(s, ast.If):
+                t = unparse(s.test).replace(" ", "")
+                if t == "np.allclose(ph.omega[0],ph.omega[1])":
+                    br = s.body if equal else s.orelse
+                elif t == "notnp.allclose(ph.omega[0],ph.omega[1])":
+                    br = s.orelse if equal else s.body
+                else:
+                    raise AnalysisError(f"{fi.where}: unexpected condition in the vibration loops: {t}")
+                for k, v in collect(br, equal).items():
+                    out[k] = out.get(k, 0) + v
+            elif isinstance(s, ast.Expr) and isinstance(s.value, ast.Call) and unparse(s.value.func) in ("ham.append", "ham.extend"):
+                arg = s.value.args[0]
+                items = arg.elts if isinstance(arg, ast.List) else [arg]
+                for it in items:
+                    sym, c = op_term(it, env)
+                    out[sym] = out.get(sym, 0) + c
+        return out
+    res = {}
+    for equal in (False, True):
+        terms = {}
+        for lp in loops:
+            if any("basis.append" in unparse(x) for x in ast.walk(lp)):
+                continue
+            for k, v in collect(lp.body, equal).items():
+                terms[k] = terms.get(k, 0) + v
+        if equal:
+            terms = {k: sp.simplify(sp.sympify(v).subs(w1, w0)) for k, v in terms.items()}
+        res[equal] = terms
+    gen = res[False]
+    k2 = gen.get(r"a^\dagger a x^2", 0)
+    k1 = gen.get(r"a^\dagger a x", 0)
+    c2 = sp.simplify(gen.get("x^2", 0) + k2)
+    ro = src.func(PH, "Phonon.reorganization_energy")
+    rv = [r.value for r in ast.walk(ro.node) if isinstance(r, ast.Return)]
+    dd = {unparse(n.targets[0]): n.value for n in ast.walk(ro.node) if isinstance(n, ast.Assign)}
+    call = rv[0]
+    inner = call.args[0] if isinstance(call, ast.Call) and unparse(call.func) == "Quantity" else call
+    t = unparse(inner).replace(" ", "")
+    if "dis_diff" in dd:
+        t = t.replace("dis_diff", "(" + unparse(dd["dis_diff"]).replace(" ", "") + ")")
+    t = t.replace("self.omega[0]", "W0").replace("self.omega[1]", "W1").replace("self.dis[1]", "D1").replace("self.dis[0]", "D0")
+    from . import C09
+    c0 = C09.scalar_sym(ast.parse(t, mode="eval").body, {"W0": w0, "W1": w1, "D1": d1, "D0": sp.Integer(0)})
+    chk.ob("holstein-square", "kinetic and ground-state potential: 1/2 p^2 + 1/2 w_g^2 x^2", sp.simplify(gen.get("p^2", 0) - sp.Rational(1, 2)) == 0 and sp.simplify(gen.get("x^2", 0) - w0 ** 2 / 2) == 0,
+           fi.where, {"p^2": str(gen.get("p^2")), "x^2": str(gen.get("x^2"))}, {"p^2": "1/2", "x^2": "w0**2/2"}, line=fi.node.lineno)
+    chk.ob("holstein-square", "excited-state curvature = 1/2 w_e^2", sp.simplify(c2 - w1 ** 2 / 2) == 0, fi.where, str(c2), "w1**2/2", line=fi.node.lineno)
+    chk.ob("holstein-square", "perfect square: (linear coupling)^2 = 4 * curvature * reorganisation energy", sp.simplify(k1 ** 2 - 4 * c2 * c0) == 0 and sp.simplify(k1 + w1 ** 2 * d1) == 0, fi.where,
+           {"linear": str(k1), "curvature": str(c2), "reorganisation": str(c0)}, "linear = -w_e^2 d, reorganisation = 1/2 w_e^2 d^2", line=fi.node.lineno,
+           detail="the electron-phonon coupling, the excited-state frequency and the on-site reorganisation energy (Phonon.reorganization_energy, added through Mol.e0) no longer form "
+                  "1/2 w_e^2 (x-d)^2; invisible when ground and excited state frequencies coincide")
+    eq = res[True]
+    gen_at_eq = {k: sp.simplify(sp.sympify(v).subs(w1, w0)) for k, v in gen.items()}
+    gen_at_eq = {k: v for k, v in gen_at_eq.items() if v != 0}
+    eqn = {k: v for k, v in eq.items() if v != 0}
+    chk.ob("holstein-square", "equal-frequency branch == general branch at w_e = w_g", eqn == gen_at_eq, fi.where, {k: str(v) for k, v in eqn.items()}, {k: str(v) for k, v in gen_at_eq.items()},
+           line=fi.node.lineno)
+    t10 = src.func(PH, "Phonon.term10")
+    r10 = [r.value for r in ast.walk(t10.node) if isinstance(r, ast.Return)][0]
+    tt = unparse(r10).replace(" ", "").replace("self.omega[0]", "W0").replace("self.omega[1]", "W1").replace("self.dis[1]", "D1").replace("np.sqrt", "SQRT")
+    v10 = C09.scalar_sym(ast.parse(tt.replace("SQRT(2.0*W0)", "S2W0"), mode="eval").body, {"W0": w0, "W1": w1, "D1": d1, "S2W0": sp.sqrt(2 * w0)})
+    chk.ob("holstein-square", "Phonon.term10 * sqrt(2 w_g) == linear coupling of the model", sp.simplify(v10 * sp.sqrt(2 * w0) - k1) == 0, t10.where, str(v10), str(k1 / sp.sqrt(2 * w0)), line=t10.node.lineno,
+           detail="the exact propagator (EX space) couples through term10 (b^dagger + b) with x = (b^dagger + b)/sqrt(2 w_g); it must be the model's linear coupling")
+    diag = [n for n in ast.walk(fi.node) if isinstance(n, ast.Assign) and unparse(n.targets[0]) == "factor" and "e0" in unparse(n.value)]
+    chk.ob("holstein-square", "on-site energy includes the reorganisation energy (elocalex + e0)", len(diag) == 1 and unparse(diag[0].value).replace(" ", "") == "mol_list[imol].elocalex+mol_list[imol].e0",
+           fi.where, [unparse(d.value) for d in diag], "mol_list[imol].elocalex + mol_list[imol].e0", line=fi.node.lineno)
 
 
 META = {
